@@ -1,88 +1,5 @@
-(* GENERATED by /verif/harness/cmd/genparams from /repo's Go sources -- do not edit. *)
-From Coq Require Import ZArith String List.
-Import ListNotations.
-Open Scope Z_scope.
-Open Scope string_scope.
-
-Inductive cmp_op := OpGe | OpGt | OpLe | OpLt | OpEq | OpNe.
-Inductive sentinel := SIllegalArgument | SJobAlreadyExists | SJobNotFound | SJobIsSuspended | SJobIsActive | SQueueEmpty | STriggerExpired | SOther.
-Inductive prev_src := PrevNow | PrevPrio.
-
-(* math.MaxInt64 *)
-Definition go_MaxInt64 : Z := 9223372036854775807.
-(* NewStdScheduler: default SchedulerConfig *)
-Definition default_outdated_threshold_ns : Z := 100000000.
-Definition default_retry_interval_ns : Z := 100000000.
-
-(* ---- validateJob: the if / else-if chain, in source order ----
-   condition; the `valid` result; the next-run-time extractor; whether the branch offers the job
-   to MisfiredChan; whether that offer is a select with a default clause (non-blocking) *)
-Inductive vcond :=
-| CondSuspended                      (* job.JobDetail().opts.Suspended *)
-| CondPrioVsNowMinusThr (op : cmp_op) (* job.NextRunTime() <op> now - OutdatedThreshold.Nanoseconds() *)
-| CondPrioVsNow (op : cmp_op).        (* job.NextRunTime() <op> now *)
-Inductive extractor :=
-| XConst (z : Z)                     (* func() { return z, nil } *)
-| XTrigger (p : prev_src)            (* job.Trigger().NextFireTime(now | job.NextRunTime()) *)
-| XKeep.                             (* func() { return job.NextRunTime(), nil } *)
-Record vbranch := { vb_cond : vcond; vb_valid : bool; vb_next : extractor; vb_misfire : bool; vb_nonblocking : bool }.
-Definition validate_branches : list vbranch :=
-  [ {| vb_cond := CondSuspended; vb_valid := false; vb_next := XConst 9223372036854775807; vb_misfire := false; vb_nonblocking := true |};
-    {| vb_cond := CondPrioVsNowMinusThr OpLt; vb_valid := false; vb_next := XTrigger PrevNow; vb_misfire := true; vb_nonblocking := true |};
-    {| vb_cond := CondPrioVsNow OpGt; vb_valid := false; vb_next := XKeep; vb_misfire := false; vb_nonblocking := true |} ].
-Definition validate_default : vbranch :=
-  {| vb_cond := CondSuspended; vb_valid := true; vb_next := XTrigger PrevPrio; vb_misfire := false; vb_nonblocking := true |}.
-(* NowNano() is read once, after the Suspended test *)
-Definition validate_clock_reads : nat := 1.
-
-(* ---- priorities and trigger arguments at the API sites ---- *)
-Definition schedule_park_priority : Z := 9223372036854775807.   (* nextRunTime := int64(math.MaxInt64) *)
-Definition schedule_trigger_guard_not_suspended : bool := true.  (* if !jobDetail.opts.Suspended { ... NextFireTime ... } *)
-Definition pause_park_priority : Z := 9223372036854775807.      (* paused.priority *)
-Definition pause_sets_suspended : bool := true.                  (* job.JobDetail().opts.Suspended = true *)
-Definition resume_sets_suspended : bool := false.                (* job.JobDetail().opts.Suspended = false *)
-Definition resume_priority_is_trigger_result : bool := true.     (* resumed.priority = nextRunTime (the NextFireTime result) *)
-Definition fetch_priority_is_extractor_result : bool := true.    (* toSchedule.priority = nextRunTime *)
-Definition fetch_trigger_error_returns_job_valid : bool := true. (* if err != nil { return job, valid, nil } before Push *)
-Definition fetch_returns_job_valid : bool := true.               (* final return job, valid, nil *)
-Definition fetch_empty_queue_not_error : bool := true.           (* errors.Is(err, ErrQueueEmpty) => nil, false, nil *)
-Definition exec_guard_valid : bool := true.                      (* executeAndReschedule dispatches only `if valid` *)
-Definition exec_dispatch_sites : nat := 3.                       (* blocking, worker pool, goroutine: each runs scheduled.JobDetail() *)
-
-(* ---- sentinels ---- *)
-Definition schedule_arg_sentinels : list sentinel := [SIllegalArgument; SIllegalArgument; SIllegalArgument; SIllegalArgument].
-Definition schedule_checks_empty_name : bool := true.            (* jobDetail.jobKey.name == "" *)
-Definition get_nilkey_sentinel : sentinel := SIllegalArgument.
-Definition delete_nilkey_sentinel : sentinel := SIllegalArgument.
-Definition pause_nilkey_sentinel : sentinel := SIllegalArgument.
-Definition resume_nilkey_sentinel : sentinel := SIllegalArgument.
-Definition pause_suspended_sentinel : sentinel := SJobIsSuspended.   (* if job.JobDetail().opts.Suspended *)
-Definition resume_active_sentinel : sentinel := SJobIsActive.        (* if !job.JobDetail().opts.Suspended *)
-Definition queue_push_exists_sentinel : sentinel := SJobAlreadyExists.
-Definition queue_push_replace_guard : bool := true.                  (* if job.JobDetail().opts.Replace { heap.Remove; break } *)
-Definition queue_get_missing_sentinel : sentinel := SJobNotFound.
-Definition queue_remove_missing_sentinel : sentinel := SJobNotFound.
-Definition queue_pop_empty_sentinel : sentinel := SQueueEmpty.
-Definition queue_head_empty_sentinel : sentinel := SQueueEmpty.
-Definition trigger_runonce_expired_sentinel : sentinel := STriggerExpired.
-
-(* ---- ordered skeleton of each body: calls on the queue, the locker, the trigger, the clock, Reset,
-        error constructors, and assignments to opts.Suspended (logging and accessors left out) ---- *)
-Definition calls_ScheduleJob : list string :=
-  ["newIllegalArgumentError"; "newIllegalArgumentError"; "newIllegalArgumentError"; "newIllegalArgumentError"; "NextFireTime(0)"; "queueLocker.Lock"; "defer queueLocker.Unlock"; "queue.Push"; "IsStarted"; "Reset"].
-Definition calls_GetJobKeys : list string :=
-  ["queueLocker.Lock"; "defer queueLocker.Unlock"; "queue.ScheduledJobs"].
-Definition calls_GetScheduledJob : list string :=
-  ["newIllegalArgumentError"; "queueLocker.Lock"; "defer queueLocker.Unlock"; "queue.Get"].
-Definition calls_DeleteJob : list string :=
-  ["newIllegalArgumentError"; "queueLocker.Lock"; "defer queueLocker.Unlock"; "queue.Remove"; "IsStarted"; "Reset"].
-Definition calls_PauseJob : list string :=
-  ["newIllegalArgumentError"; "queueLocker.Lock"; "defer queueLocker.Unlock"; "queue.Get"; "newIllegalStateError"; "queue.Remove"; "Suspended=true"; "queue.Push"; "IsStarted"; "Reset"].
-Definition calls_ResumeJob : list string :=
-  ["newIllegalArgumentError"; "queueLocker.Lock"; "defer queueLocker.Unlock"; "queue.Get"; "newIllegalStateError"; "NextFireTime(NowNano())"; "queue.Remove"; "Suspended=false"; "queue.Push"; "IsStarted"; "Reset"].
-Definition calls_Clear : list string :=
-  ["queueLocker.Lock"; "defer queueLocker.Unlock"; "queue.Clear"; "IsStarted"; "Reset"].
-Definition calls_fetchAndReschedule : list string :=
-  ["queueLocker.Lock"; "defer queueLocker.Unlock"; "queue.Pop"; "validateJob"; "nextRunTimeExtractor"; "queue.Push"; "Reset"].
-Definition calls_executeAndReschedule : list string :=
-  ["fetchAndReschedule"; "executeWithRetries"; "dispatch<-"; "executeWithRetries"].
+(* The facts copied from the Go sources by harness/cmd/genparams (sections sched-api and sched-fetch):
+   ParamsApi.v   -- constants, API sites, sentinels, skeletons of the API bodies (scheduler.go, queue.go, error.go, trigger.go)
+   ParamsFetch.v -- the branch table of validateJob, fetchAndReschedule / executeAndReschedule facts and skeletons
+   Both files are regenerated on every run of a check; this file only re-exports them. *)
+Require Export QzSched.Gen.ParamsApi QzSched.Gen.ParamsFetch.
